@@ -61,6 +61,7 @@ def run_case(args):
         sats, unknowns, bad_paths = [], [], []
         reached = set()
         val = []
+        witnesses = []
         statuses = {}
         for r in recs:
             statuses[r.status] = statuses.get(r.status, 0) + 1
@@ -77,9 +78,12 @@ def run_case(args):
                                       inputs=r.model))
             if r.status == "ok" and r.model is not None:
                 val.append(dict(inputs=r.model, observed=r.observed, path=r.n))
+            for lab, vals in r.reach_models:
+                if len(witnesses) < 60:
+                    witnesses.append(dict(label=lab, inputs=vals))
         out.update(ok=True, stats=eng.stats, claims=claims, sats=sats, unknowns=unknowns,
                    bad_paths=bad_paths, reached=sorted(reached), statuses=statuses,
-                   validate=val, known_used=sorted(c.known_used), wall_s=time.time() - t0)
+                   validate=val, witnesses=witnesses, known_used=sorted(c.known_used), wall_s=time.time() - t0)
     except BaseException as ex:      # noqa: BLE001 -- report, never hide
         out["error"] = "".join(traceback.format_exception(type(ex), ex, ex.__traceback__))[-4000:]
         out["wall_s"] = time.time() - t0
@@ -121,13 +125,13 @@ def real_main():
     json.dump(dict(results=res, pendulum=pendulum.__file__), sys.stdout)
 
 
-def run_real(pid, tier, jobs, timeout=1800):
+def run_real(pid, tier, jobs, timeout=1800, ext="0"):
     if not jobs:
         return []
     p = subprocess.run([PY, "-c", "from vf.runner import real_main; real_main()"],
                        input=json.dumps(dict(pid=pid, tier=tier, jobs=jobs)), capture_output=True,
                        text=True, cwd=ROOT, timeout=timeout,
-                       env=dict(os.environ, PENDULUM_EXTENSIONS=os.environ.get("VF_REAL_EXT", "0")))
+                       env=dict(os.environ, PENDULUM_EXTENSIONS=ext))
     if p.returncode != 0:
         raise RuntimeError("real-mode runner failed:\n" + p.stderr[-4000:])
     return json.loads(p.stdout)["results"]
@@ -247,6 +251,43 @@ def main(argv=None):
                 continue
             validated += 1
 
+    # -- boundary witnesses (models of the reachability conditions) and the compiled backend:
+    #    every claim must also hold concretely on these solver-chosen inputs, with both helper/parser backends
+    violations = []
+    wjobs, wmeta = [], []
+    for r in results:
+        if r.get("ok"):
+            for w in r.get("witnesses", []):
+                wjobs.append(dict(idx=r["idx"], inputs=w["inputs"]))
+                wmeta.append((r["name"], r["idx"], w))
+    rust_checked = 0
+    backends = [("0", "python")] + ([("1", "compiled")] if getattr(prop, "RUST_CROSSCHECK", False) else [])
+    for ext, bname in backends:
+        jobs = list(wjobs) + ([j for j in vjobs] if ext == "1" else [])
+        meta = list(wmeta) + ([(n, None, dict(label="path model", inputs=it["inputs"])) for (n, it) in vexp] if ext == "1" else [])
+        if not jobs or problems:
+            continue
+        try:
+            wres = run_real(pid, a.tier, jobs, ext=ext)
+        except Exception as ex:      # noqa: BLE001
+            problems.append(f"witness run ({bname}) failed: {ex}")
+            continue
+        for (cname, cidx, w), job, rr in zip(meta, jobs, wres):
+            failed = [lab for lab, ok in rr.get("claims", []) if not ok]
+            if ext == "1":
+                rust_checked += 1
+            if rr["status"] == "ok" and failed:
+                violations.append(dict(property=pid, tier=a.tier, case=cname, case_idx=job["idx"], inputs=w["inputs"],
+                                       solver_claim=f"witness {w['label']}", failed_claims=failed, backend=bname,
+                                       observed=rr.get("observed")))
+            elif rr["status"] == "error":
+                if ext == "1":
+                    violations.append(dict(property=pid, tier=a.tier, case=cname, case_idx=job["idx"], inputs=w["inputs"],
+                                           solver_claim=f"witness {w['label']}", failed_claims=["unexpected exception"],
+                                           backend=bname, observed=rr.get("error", "")[-600:]))
+                else:
+                    mismatches.append(dict(case=cname, inputs=w["inputs"], error=rr.get("error")))
+
     # -- counterexamples: replay on the real library before reporting
     sat_jobs, sat_meta = [], []
     for r in results:
@@ -258,7 +299,7 @@ def main(argv=None):
                 seen.add(s["label"])
                 sat_jobs.append(dict(idx=r["idx"], inputs=s["inputs"]))
                 sat_meta.append((r["name"], s, r["idx"]))
-    violations, unreproduced = [], []
+    unreproduced = []
     if sat_jobs:
         try:
             sres = run_real(pid, a.tier, sat_jobs)
@@ -352,6 +393,10 @@ def main(argv=None):
             paths_outside_assumptions=tot["aborted"],
             reachability_witnesses=sorted(reached), witnesses_required=getattr(prop, "REACH", []),
             model_impl_mismatches=len(mismatches),
+            boundary_witnesses_replayed=len(wjobs),
+            rust_crosscheck=dict(enabled=bool(getattr(prop, "RUST_CROSSCHECK", False)), concrete_runs_on_compiled_backend=rust_checked,
+                                 note="solver-chosen inputs (one per explored path plus the reachability witnesses) re-run on the "
+                                      "compiled backend; concrete cross-run, not the deciding step"),
             known_findings=[l for l in known_lines],
             inconclusive=inconclusive[:20], harness_problems=problems[:20],
             exhaustive=False,
@@ -407,7 +452,8 @@ def main(argv=None):
 
 def do_replay(pid, path):
     v = json.load(open(path))
-    res = run_real(pid, v.get("tier", "quick"), [dict(idx=v["case_idx"], inputs=v["inputs"])])
+    res = run_real(pid, v.get("tier", "quick"), [dict(idx=v["case_idx"], inputs=v["inputs"])],
+                   ext="1" if v.get("backend") == "compiled" else "0")
     rr = res[0]
     failed = [lab for lab, ok in rr.get("claims", []) if not ok]
     print(json.dumps(dict(status=rr["status"], failed_claims=failed, observed=rr.get("observed"),
